@@ -101,6 +101,23 @@ def run_harness(h, srcs, workdir, incdirs, defines=(), tag="main", timeout=120, 
     if h.get("slice_formula", True):
         cb += ["--slice-formula"]
     cb += list(h.get("flags", []))
+    if h.get("only_properties"):
+        # restrict the query to the named obligations (the rest of this harness' obligations are covered by a sibling harness)
+        rc0, out0, _ = _run(["cbmc", b, "--show-properties", "--json-ui"] + BASE_CHECKS, log, 120)
+        ids = []
+        try:
+            for el in json.loads(out0.decode(errors="replace")):
+                for pr in el.get("properties", []) if isinstance(el, dict) else []:
+                    if re.search(h["only_properties"], pr.get("name", "")):
+                        ids.append(pr["name"])
+        except Exception:
+            pass
+        if not ids:
+            res["status"] = "tool-error"
+            res["error"] = "only_properties matched nothing"
+            return res
+        for i in ids:
+            cb += ["--property", i]
     to = h.get("timeout", timeout)
     rc, out, dt = _run(cb, log, to, mem_gb)
     res["cmds"].append(" ".join(cb))
